@@ -27,7 +27,7 @@ def schedToJson (s : Schedule) : Json :=
 
 def errName : Err → String
   | .indexError => "IndexError" | .valueError => "ValueError" | .zeroDivision => "ZeroDivisionError"
-  | .assertion => "AssertionError" | .outOfFuel => "OUT_OF_FUEL" | .certificate => "NO_CERTIFICATE"
+  | .assertion => "AssertionError" | .outOfFuel => "OUT_OF_FUEL" | .certificate => "NO_CERTIFICATE" | .runtime => "RuntimeError"
 
 def jExcept {α} (f : α → Json) : Except Err α → Json
   | .ok a => f a
@@ -146,11 +146,31 @@ def autoflowH : Handler := fun j => do
   match autoflowFirst sizes t (← nat (← field j "fuel")) s with
   | .error e => return Json.mkObj [("raised", Json.str (errName e))]
   | .ok none => return Json.mkObj [("raised", Json.str "StopIteration")]
-  | .ok (some r) => return schedToJson r
+  | .ok (some r) =>
+    -- the schedule and the affine maps `to_affine_map` writes for it (AT.toMapRow per result)
+    return Json.mkObj [("bounds", jList jNat r.bounds), ("ops", jList operandToJson r.ops),
+      ("maps", jList (fun o : Operand => jList aexprToJson (List.zipWith AT.toMapRow o.rows o.b)) r.ops)]
+
+def tmplToJson (t : Template) : Json :=
+  Json.mkObj [("bounds", jList (jOpt jNat) t.bounds), ("ops", jList operandToJson t.ops)]
+
+def kopOfJson (j : Json) : Except String KOp := do
+  match (← str j) with
+  | "qmac" => pure .qmac | "mac" => pure .mac | "add" => pure .add | "rescale" => pure .rescale | _ => pure .other
+
+/-- args: {"acc": "snax_alu"} | {"acc": "snax_gemmx", "geom": [m, n, k], "body": [kernel names]} -> template | {"raised": ..} -/
+def templateH : Handler := fun j => do
+  let acc ← str (← field j "acc")
+  if acc == "snax_alu" then return tmplToJson aluTemplate
+  else if acc == "snax_gemmx" then
+    match (← listOf nat (← field j "geom")) with
+    | [m, n, k] => return jExcept tmplToJson (gemmxTemplate m n k (← listOf kopOfJson (← field j "body")))
+    | _ => throw "geom must be [m, n, k]"
+  else throw s!"no template table for {acc}"
 
 def handlers : List (String × Handler) :=
   [("c03.rotate", rotateH), ("c03.tile", tileH), ("c03.add_dim", addDimH), ("c03.clear", clearH),
    ("c03.canon", canonH), ("c03.clear_with", clearWithH), ("c03.construct", constructH), ("c03.from_affine_map", fromMapH), ("c03.autoflow", autoflowH), ("c03.inner", innerH), ("c03.image", imageH), ("c03.backtrack", backtrackH),
-   ("c16.matches", matchesH), ("c16.same_space", sameSpaceH), ("c16.check", checkH), ("c16.ocs", ocsH)]
+   ("c16.template", templateH), ("c16.matches", matchesH), ("c16.same_space", sameSpaceH), ("c16.check", checkH), ("c16.ocs", ocsH)]
 
 end SnaxVerif.Drv.C03
